@@ -9,7 +9,7 @@ ENGINE = {
     "xspace": "E1 exhaustive enumeration of finite products of alphabets on the real code vs reference model",
     "words": "E2 exhaustive words over {<,=,>} / NaN masks against a spec automaton (product exploration)",
     "histories": "E3 breadth-first search over operation histories on one live interpolator",
-    "schedules": "E4 shuttle DFS (unbounded or preemption-bounded) over thread interleavings at hook points and, on the instrumented build (mc/c17s, mc/verif_std, tools/instrument.sh), at every atomic / lock operation",
+    "schedules": "E4 shuttle DFS (unbounded or preemption-bounded) over thread interleavings at hook points and, on the instrumented build (mc/c17s, mc/verif_std, tools/instrument.sh), at every atomic / lock / std::cell operation (thread_local! per simulated thread, scoped threads of the crate simulated); failures on the normal build are confirmed by mc/src/baton.rs, a DFS over schedules of real OS threads",
 }
 
 # id -> (engine, technique, level text, level note, design ref)
@@ -66,8 +66,8 @@ CHECKS = {
             "Every wrong buffer shape of the alphabet (each axis +-1, permutations, wrong rank, same element count) must be rejected, every right one filled completely with the surrounding poison intact.",
             "panic is the documented rejection", "5/C14"),
     "C17": ("histories", "BFS over all operation histories up to the depth bound on fresh interpolators (per-step oracle); stateless exhaustive / preemption-bounded DFS over thread interleavings (shuttle) at hook points and, on an instrumented build, at every atomic / lock operation; Send/Sync probed per instantiation",
-            "All histories up to depth 3/4 over a 16-op alphabet incl. failing and panicking calls and a sibling interpolator, for 11 interpolators: every occurrence of an op returns the bits of a fresh interpolator. All interleavings (or all with <= 2-3 preemptions) of 2-3-thread programs return the sequential answers, explored twice; the same on a build of the current sources in which std::sync is shuttle's, so every atomic access of the crate is a scheduling point.",
-            "sequential consistency; thread_local! state is not modelled per simulated thread; programs too large for the budget are explored with a preemption bound (reported)", "5/C17 and 9"),
+            "All histories up to depth 3/4 over a 16-op alphabet incl. failing and panicking calls and a sibling interpolator, for 11 interpolators: every occurrence of an op returns the bits of a fresh interpolator. All interleavings (or all with <= 2-3 preemptions) of 2-3-thread programs return the sequential answers, explored twice; the same on a build of the current sources in which std::sync is shuttle's, so every atomic access of the crate is a scheduling point (std::cell accesses too; programs with filler threads, 2^15-element batches, two out-of-range queries). Histories over up to 131072 interpolators and queries from thread-local destructors at thread exit.",
+            "sequential consistency; on the normal build shuttle's simulated threads share thread_local! state, so a failure there is reported only if it also fails with one OS thread per thread (baton explorer); programs too large for the budget are explored with a preemption bound, searches have a wall-time share (both reported; a stopped search makes the run non-exhaustive)", "5/C17 and 9"),
     "C18": ("xspace", "bounded-exhaustive enumeration of recording/failing custom strategies x decision-table inputs x entry points + fault injection at every call index of every batch",
             "A recording strategy observes every argument the library passes it for every input of the decision table and every entry point; a failing strategy fails at every call index; accessors are compared with the inputs.",
             "none beyond the bounds", "5/C18"),
